@@ -149,7 +149,7 @@ def gen_cases(ck):
                     "write_failure_elsewhere", {"failing": bad, "at_write": k, "others": nother})
     # (c) seeded random: up to 4 connections x up to 5 calls, any cuts, any merge, any polls
     kinds = ["Echo", "Echo", "Fail", "Count", "Ping", "Total", "Sub", "Say"]
-    for i in range(1800 if quick else 12000):
+    for i in range(1400 if quick else 12000):
         nconn = rng.randrange(1, 5)
         tags = sg.Tags()
         seqs, hyp = [], []
